@@ -399,6 +399,10 @@ func (s *ExScenario) body(out **exRun) func() {
 				run.err = err
 				run.respSer = ser4(r)
 			}
+			if run.err != nil {
+				_ = run.err.Error() // rendering the error is part of using it
+			}
+			_, _ = cl.RemoteAddr().String(), cl.InterfaceAddr().String()
 			run.done = true
 			cl.Close()
 			return
@@ -431,6 +435,10 @@ func (s *ExScenario) body(out **exRun) func() {
 				run.respType = int(r.MessageType)
 			}
 		}
+		if run.err != nil {
+			_ = run.err.Error()
+		}
+		_, _ = cl.RemoteAddr().String(), cl.InterfaceAddr().String()
 		run.done = true
 		cl.Close()
 	}
